@@ -12,8 +12,9 @@ struct RangeLog
 {
   int  len;
   int  cursor;                // single-pass cursor (stream iterators)
-  int  deref[64];             // per position dereference count
-  int  inc[64];               // per position increment count
+  enum { RL_MAX = 320 };
+  int  deref[RL_MAX];         // per position dereference count
+  int  inc[RL_MAX];           // per position increment count
   int  n_errors;
   char first_error[120];
 
@@ -62,7 +63,7 @@ struct StreamIt
     }
     if (! proxy && pos != log->cursor)
       log->error ("a copy of an already-advanced single-pass iterator was dereferenced");
-    if (++log->deref[pos] > 1)
+    if (pos < RangeLog::RL_MAX && ++log->deref[pos] > 1)
       log->error ("a single-pass position was dereferenced more than once");
     return static_cast<Ref> (base[pos]);
   }
@@ -80,7 +81,8 @@ struct StreamIt
       log->error ("a copy of an already-advanced single-pass iterator was incremented");
       return *this;
     }
-    ++log->inc[pos];
+    if (pos < RangeLog::RL_MAX)
+      ++log->inc[pos];
     ++log->cursor;
     ++pos;
     proxy = false;
@@ -134,7 +136,8 @@ struct WalkIt
       log->error ("multi-pass iterator dereferenced at or beyond last");
       return static_cast<Ref> (base[0]);
     }
-    ++log->deref[pos];
+    if (pos < RangeLog::RL_MAX)
+      ++log->deref[pos];
     return static_cast<Ref> (base[pos]);
   }
   pointer operator-> () const { return &base[pos]; }
@@ -144,7 +147,7 @@ struct WalkIt
     fault_point (FK_IT_INC);
     if (pos >= log->len)
       log->error ("multi-pass iterator advanced beyond last");
-    else
+    else if (pos < RangeLog::RL_MAX)
       ++log->inc[pos];
     ++pos;
     return *this;
